@@ -1,6 +1,7 @@
 import RedisVerif.Lemmas.RedisStr
 import RedisVerif.Lemmas.RedisList
 import RedisVerif.Lemmas.RedisSetHash
+import RedisVerif.Lemmas.RedisZSet
 
 /-! Dispatcher lemmas: the per-command lemmas lifted to `exec` / `step`. -/
 namespace RedisVerif.Redis
@@ -60,7 +61,7 @@ theorem inv_exec {s : State} (h : Inv s) (now : Nat) (c : Cmd) : Inv (exec s now
   case smembers k => rw [execSMembers_ro]; exact h
   case sismember k m => rw [execSIsMember_ro]; exact h
   case scard k => rw [execSCard_ro]; exact h
-  case spop k n ch => cases n <;> simp only [exec] <;> first | exact inv_execSPop1 h .. | exact inv_execSPopN h ..
+  case spop k n ch => cases n <;> first | exact inv_execSPop1 h .. | exact inv_execSPopN h ..
   case hset k fvs => exact inv_execHSet h ..
   case hget k f => rw [execHGet_ro]; exact h
   case hdel k fs => exact inv_execHDel h ..
@@ -70,6 +71,15 @@ theorem inv_exec {s : State} (h : Inv s) (now : Nat) (c : Cmd) : Inv (exec s now
   case hlen k => rw [execHLen_ro]; exact h
   case hexists k f => rw [execHExists_ro]; exact h
   case hincrby k f d => exact inv_execHIncrBy h ..
+  case zadd k f ps => exact inv_execZAdd h ..
+  case zrem k ms => exact inv_execZRem h ..
+  case zrange k a b ws => rw [execZRange_ro]; exact h
+  case zrevrange k a b ws => rw [execZRange_ro]; exact h
+  case zscore k m => rw [execZScore_ro]; exact h
+  case zrank k m => rw [execZRank_ro]; exact h
+  case zcard k => rw [execZCard_ro]; exact h
+  case zcount k lo hi => rw [execZCount_ro]; exact h
+  case zrangebyscore k lo hi ws lim => rw [execZRangeByScore_ro]; exact h
 
 theorem ttlReply_not_err (s : State) (k : Nat) (f : Nat → Nat) : (ttlReply s k f).isError = false := by
   unfold ttlReply
@@ -134,7 +144,7 @@ theorem exec_err {s : State} {now : Nat} {c : Cmd} (he : (exec s now c).2.isErro
   case sismember k m => exact execSIsMember_ro ..
   case scard k => exact execSCard_ro ..
   case spop k n ch =>
-    cases n <;> simp only [exec] at he ⊢
+    cases n
     · exact execSPop1_err he
     · exact execSPopN_err he
   case hset k fvs => exact execHSet_err he
@@ -146,6 +156,15 @@ theorem exec_err {s : State} {now : Nat} {c : Cmd} (he : (exec s now c).2.isErro
   case hlen k => exact execHLen_ro ..
   case hexists k f => exact execHExists_ro ..
   case hincrby k f d => exact execHIncrBy_err he
+  case zadd k f ps => exact execZAdd_err he
+  case zrem k ms => exact execZRem_err he
+  case zrange k a b ws => exact execZRange_ro ..
+  case zrevrange k a b ws => exact execZRange_ro ..
+  case zscore k m => exact execZScore_ro ..
+  case zrank k m => exact execZRank_ro ..
+  case zcard k => exact execZCard_ro ..
+  case zcount k lo hi => exact execZCount_ro ..
+  case zrangebyscore k lo hi ws lim => exact execZRangeByScore_ro ..
 
 /-- a command classified read-only returns the state it was given -/
 theorem exec_ro {s : State} {now : Nat} {c : Cmd} (hr : isReadOnly c = true) :
@@ -176,6 +195,13 @@ theorem exec_ro {s : State} {now : Nat} {c : Cmd} (hr : isReadOnly c = true) :
   case hvals k => exact execHVals_ro ..
   case hlen k => exact execHLen_ro ..
   case hexists k f => exact execHExists_ro ..
+  case zrange k a b ws => exact execZRange_ro ..
+  case zrevrange k a b ws => exact execZRange_ro ..
+  case zscore k m => exact execZScore_ro ..
+  case zrank k m => exact execZRank_ro ..
+  case zcard k => exact execZCard_ro ..
+  case zcount k lo hi => exact execZCount_ro ..
+  case zrangebyscore k lo hi ws lim => exact execZRangeByScore_ro ..
   all_goals cases hr
 
 theorem purge_purge_le (s : State) {now t : Nat} (h : now ≤ t) :
